@@ -31,6 +31,12 @@ CHECKS = {
         note="Trusted: pyvc, z3, the ghost-state argument. Assumed: z3's get_id uniqueness among live terms; solver soundness and well-formed cores; serialisation facts proved in the C11 pack; parse_unsat_core on a listed family of outputs; GIL atomicity of list.append. The native id-collision search is a bounded stand-in reported separately.",
         technique="contracts with ghost id->condition meaning; VCs from the real source AST (pyvc), registry frame condition on the module AST, z3; bounded native history search as labelled stand-in",
     ),
+    "C04": dict(
+        text="Deductive for the classification-and-transport chain between the solver's answer and what the user is told (NOT for the end-to-end reproducibility clause): from_result attaches the model parsed from the very output and the validity flag computed from the very output; is_model_valid is true only if the output mentions no f_evm_* abstraction; solve_end_to_end refines an invalid, unrefined sat answer once and returns the refined query's answer; the callback files a model under valid_counterexamples iff its flag says valid and otherwise under invalid_counterexamples with the 'potentially invalid' warning; parse_model_str stores every matched variable under its full name with the value its parser returns and re-raises parse errors; parse_const_value / _parse_halmos_var_match / PotentialModel.__str__ carry the literal's value (listed literal family up to 512 bits).",
+        ref="DESIGN.md 4/C04 and 11",
+        note="NOT CLAIMED: that the concrete execution with the printed values really ends in the reported failure (composition of C01 and C11, out of reach of per-function contracts). Trusted: pyvc, z3. Assumed: exactness of refinement is the C11 proof; string functions are checked on listed families, and as a bounded stand-in on the model text printed by the installed z3 4.8 / z3 5.1 / cvc5 / yices binaries.",
+        technique="contracts on the real functions with callee contracts, VCs from the AST (pyvc); listed string families; bounded stand-in on real solver output",
+    ),
     "C19": dict(
         text="Deductive: insn_len against N(0,w) on the full opcode domain; Contract.__get_jumpdests against the Yellow-Paper D_J by a loop invariant (arbitrary code length and contents, concrete prefix / symbolic bytes, PUSH data straddling the fast-path boundary), with a variant for termination; valid_jumpdests caching; decode past the end = STOP. the jump-destination checks of sevm.py (JUMP arm, concrete JUMPI arm, SEVM.jumpi for every solver answer) against an arbitrary destination set: execution continues at a target only if it is valid, a genuine JUMPDEST is never rejected, an invalid one ends that direction with InvalidJumpDestError. PUSH operand extraction, slices and byte reads are a bounded stand-in (exhaustive short codes natively against specs/dj.py) reported separately and never counted as proved.",
         ref="DESIGN.md 4/C19",
